@@ -161,6 +161,8 @@ func (k Keeper) AllocateConsumerRewards(ctx sdk.Context, consumerId string, allo
 				"chainId", chainId,
 				"error", err.Error(),
 			)
+			// keep the rewards allocated to the consumer: nothing was sent to the community pool
+			return types.ConsumerRewardsAllocation{}, err
 		}
 		k.Logger(ctx).Info(
 			"allocated ICS rewards to community pool",
